@@ -46,7 +46,9 @@ SPEC['assumptions'] = [a for a in SPEC['assumptions'] if not a.startswith('store
 SPEC['assumptions'].append("transient store failures ARE modelled (model/CoordinatorFaults.v, step relation stepf with a per-operation fault: load of the group / whole-group write / offset write fails) and injected by the harness's gating store wrapper into every operation kind (incl. the first join, leave, the leader's sync, cleanup's persist, the load after a failover); the *_under_store_faults theorems hold for arbitrary failures; claims that compare a coordinator with its successor (C15 view, C13/C12 across failover) need 'the last whole-group write succeeded' (synced), stated in the theorems. Not modelled and not injected: a failing store.Metadata in the leader's sync (collectTopicPartitions falls back to partition 0 per topic). The check needs fixes/C14-join-error-reply-no-members.patch.")
 SPEC['coq_deps'] = ['theories/corr/CoordinatorCorr.vo']
 SPEC['harnesses'].append(dict(module=".", pkg="./cmd/broker", pkgname="main",
-    files={"zz_verif_c13_handlers_test.go": "harness/coordinator/c13_handlers_test.go"},
+    files={"zz_verif_c13_handlers_test.go": "harness/coordinator/c13_handlers_test.go",
+           "pkg/broker/zz_verif_coord_export.go": "harness/coordinator/verif_export.go"},
     run="^TestVerifC13Handlers$", timeout_s=600))
 SPEC['assumptions'].append("LEASE_SINGLE_OWNER: at any time at most one broker holds a group's coordination lease (property C18, etcd lease manager); with it and the routing rule of cmd/broker (no lease -> NOT_COORDINATOR and no effect; lease newly acquired -> cached group state dropped; non-holders' sweeps have no effect -- fixes/C13-group-cache-follows-lease.patch) C13_cluster_is_one_coordinator reduces any number of brokers with caches to the single-coordinator model; the rule is checked on two real handlers with real GroupLeaseManagers (embedded etcd, shared store) by the second harness, every group request sent to either broker at random, with lease hand-overs")
 SPEC['level_text'] += " Handler-level stream (cmd/broker, package main): two real handlers with real group lease managers over one shared store; oracles: a broker without the lease answers NOT_COORDINATOR to every group-scoped request and changes nothing; fencing on the shared store whichever broker a request reaches, also after the lease moved away and came back; nothing changes the persisted group behind the lease holder's back."
+SPEC['extra_obligations'] = ['production-wiring-ties-sweep-to-lease: the coordinator built by newHandler -> coordinatorConfig(groupLeaseManager) -> NewGroupCoordinator has OwnsGroup set (asserted once per run by the handler-level harness on a handler built over a real EtcdStore)']
